@@ -1405,13 +1405,17 @@ func FunExpr(query *Query, current Map, expr *sqlparser.FuncExpr, opts ...ExprOp
 				return nil, e
 			}
 			var rs any
-			var err error
 			query.wg.Add(1)
 			go func() {
-				rs, err = function(query, current, nil, slice)
-				query.wg.Done()
+				defer query.wg.Done()
+				defer query.recoverAsync()
+				value, err := function(query, current, nil, slice)
+				if err != nil && query.options.errors != nil {
+					query.options.errors(err)
+				}
+				rs = value
 			}()
-			return &rs, err
+			return &rs, nil
 		}
 	case "spin":
 		{
@@ -1423,6 +1427,7 @@ func FunExpr(query *Query, current Map, expr *sqlparser.FuncExpr, opts ...ExprOp
 				return nil, e
 			}
 			go func() {
+				defer query.recoverAsync()
 				_, err := function(query, current, nil, slice)
 				if err != nil {
 					if query.options.errors != nil {
@@ -1443,13 +1448,14 @@ func FunExpr(query *Query, current Map, expr *sqlparser.FuncExpr, opts ...ExprOp
 			}
 			query.wg.Add(1)
 			go func() {
+				defer query.wg.Done()
+				defer query.recoverAsync()
 				_, err := function(query, current, nil, slice)
 				if err != nil {
 					if query.options.errors != nil {
 						query.options.errors(err)
 					}
 				}
-				query.wg.Done()
 			}()
 			return Ommit(true), nil
 		}
@@ -1515,6 +1521,17 @@ func FunExpr(query *Query, current Map, expr *sqlparser.FuncExpr, opts ...ExprOp
 		}
 	}
 }
+// recoverAsync keeps a panic in a function that runs on its own goroutine
+// (ASYNC, SPIN, SPINASYNC) from killing the host process; the panic is
+// handed to the UnReportedErrors handler when there is one.
+func (query *Query) recoverAsync() {
+	if r := recover(); r != nil {
+		if query.options.errors != nil {
+			query.options.errors(fmt.Errorf("%v", r))
+		}
+	}
+}
+
 func AggrFunExpr(query *Query, current Map, expr sqlparser.AggrFunc, opts ...ExprOption) (any, error) {
 	name := strings.ToLower(expr.AggrName())
 	function, ok := functions[name]
